@@ -3,7 +3,7 @@ preemption-point exploration on real threads (thread A stopped before every line
 computation run entirely at stop k, and the other way round); every result is compared with what the computation returns alone."""
 import hashlib
 
-from harness import tlc, tracecheck, preempt
+from harness import tlc, tracecheck, preempt, sk
 from harness.common import machinery_failure
 
 FILES = ("skepticoin/consensus.py", "skepticoin/pow.py", "skepticoin/balances.py", "skepticoin/merkletree.py", "skepticoin/datatypes.py",
@@ -32,6 +32,7 @@ def explore_pair(chk, pid, what, fa, fb, quick, rng, files=FILES, max_points=Non
             return ("ok", f())
         except Exception as e:
             return ("exc", type(e).__name__)
+    sk.reset_module_state()
     alone_a, alone_b = _digest(val(fa)), _digest(val(fb))
     if _digest(val(fa)) != alone_a or _digest(val(fb)) != alone_b:
         chk.notes.append("%s: not deterministic when run alone; skipped" % what)
@@ -41,12 +42,12 @@ def explore_pair(chk, pid, what, fa, fb, quick, rng, files=FILES, max_points=Non
         def make(x=x, y=y):
             out = {}
             return {"a": lambda: out.__setitem__("x", val(x)), "b": lambda: out.__setitem__("y", val(y)), "observe": lambda: dict(out)}
-        n = preempt.count_stops(make, files)
+        n = preempt.count_stops(make, files, sk.reset_module_state)
         ks = list(range(0, n + 1))
         cap = max_points or (160 if quick else 2000)
         if len(ks) > cap:
             ks = sorted(set(rng.sample(ks, cap - 20) + ks[:10] + ks[-10:]))
-        for (k, nn, blocked, obs, errs) in preempt.explore(make, files, ks=ks):
+        for (k, nn, blocked, obs, errs) in preempt.explore(make, files, ks=ks, reset=sk.reset_module_state):
             traces.append({"id": 0, "prop": pid, "what": what, "alone": ax, "got": _digest(obs.get("x")), "other_alone": ay, "other_got": _digest(obs.get("y")),
                            "errors": errs, "k": k, "of": nn, "stepped": tag})
             chk.case(("interfere", what, tag, k), nontrivial=True)
